@@ -25,7 +25,8 @@ ASSUMPTIONS = ["the integral itself is sedfitter's own Filter.rebin used in isol
                'tolerances: 1e-10 relative for f8 storage, 2e-5 for f4 (the cube path multiplies in the storage dtype)',
                'fit agreement is judged by model name within a first-order perturbation bound; models whose prediction is within 10 delta of a limit point are skipped']
 PROBES = ['crash_rerun', 'crash_left_partial_file', 'subset_calls', 'overwrite_call', 'mixed_grid', 'v1_v2_compared', 'fits_compared',
-          'multi_aperture', 'gz_package', 'subdir_package', 'f4_storage', 'limit_skipped', 'tie_group', 'singular_skipped']
+          'multi_aperture', 'gz_package', 'subdir_package', 'f4_storage', 'limit_skipped', 'tie_group', 'singular_skipped',
+          'consumer_between_convolver_calls']
 
 
 def budgets(tier):
@@ -72,6 +73,10 @@ def generate(rng, tier, idx):
     while any(calls):
         src = rng.choice([c for c in calls if c])
         steps.append(src.pop(0))
+        if rng.random() < 0.35:
+            # between convolver calls an analyst fits a source with what is convolved so far and lists parameters
+            steps.append({'op': 'consume', 'fmt': steps[-1]['fmt'], 'which': rng.choice(['wp', 'wpr', 'ep']),
+                          'source': gen_source(rng, nf, 'mid', flags=(1,), min_fit=1)})
     for i in range(rng.randint(1, 3)):
         steps.append({'op': 'fit', 'source': gen_source(rng, nf, 'src%d' % i, flags=(0, 1, 1, 1, 1, 2, 3, 9), min_fit=min(2, nf))})
     return {'world': w, 'formats': formats, 'listing_seed': rng.randrange(1 << 30), 'theta_seed': rng.randrange(1 << 30),
@@ -172,7 +177,31 @@ def _execute(sc, sim, out):
         out.probe('mixed_grid')
     trace = [tuple(sc['formats']), min(W.n_ap, 2), spec['dtype'], bool(spec['gz']), bool(spec['subdir']), spec['mixed'] is not None]
     shape = []
+    done_filters = {1: set(), 2: set()}
     for st in sc['steps']:
+        if st['op'] == 'consume':
+            d = dirs.get(st['fmt'])
+            have = sorted(done_filters[st['fmt']])
+            if d is None or not have:
+                continue
+            from sedfitter import write_parameters, write_parameter_ranges, extract_parameters
+            nm = [W.fspec[j]['name'] for j in have]
+            ap = np.array([sc['theta'][j] for j in have], float) * u.arcsec
+            rc = pipe.call(pipe.Fitter, nm, ap, d, **pipe.fitter_kwargs(W, sc))
+            if rc[0] == 'ok':
+                s0 = st['source']
+                rc = pipe.call(rc[1].fit, make_source(dict(s0, valid=[s0['valid'][j] for j in have], flux=[s0['flux'][j] for j in have],
+                                                            error=[s0['error'][j] for j in have])))
+            if rc[0] == 'ok':
+                os.makedirs(sim.path('mid'), exist_ok=True)
+                fn = {'wp': write_parameters, 'wpr': write_parameter_ranges}.get(st['which'])
+                if fn is not None:
+                    pipe.call(fn, rc[1], sim.path('mid', 'out.txt'), select_format=('N', 2))
+                else:
+                    pipe.call(extract_parameters, rc[1], sim.path('mid', 'ep_'), select_format=('N', 2))
+                out.probe('consumer_between_convolver_calls')
+                sim.fired('consumer_between_calls')
+            continue
         if st['op'] != 'convolve':
             continue
         d = dirs.get(st['fmt'])
@@ -203,6 +232,7 @@ def _execute(sc, sim, out):
             out.violate('convolve-failed', 'convolve_model_dir (format %d, filters %s, overwrite=%s) raised %s: %s' % (st['fmt'], st['subset'], kw['overwrite'], pipe.exc_name(r), r[1]),
                         key='v%d/%s@%s' % (st['fmt'], pipe.exc_name(r), pipe.where(r[1]) if r[0] == 'exc' else ''))
             break
+        done_filters[st['fmt']] |= set(st['subset'])
         shape.append((st['fmt'], len(st['subset']), st['overwrite'], None if st['crash_at'] is None else st['partial']))
     trace.append(tuple(shape))
     if out.violations:
